@@ -125,20 +125,52 @@ Definition ok_bound (r : rminfo) : bool := zlen (r_nodes r) <=? r_req_nodes r.
 Definition ok_same (r : rminfo) (second : option (err + rminfo)) : bool :=
   match second with Some (inr r2) => rminfo_eqb r2 r | _ => false end.
 
+(* 8. With the nodes it may use (all allocated ones, or with backup nodes the
+      ones answering the probe), the pilot offers/reserves exactly
+      min(requested, usable) of them -- each an allocated, usable node, by index
+      at most once -- and start-up fails only if fewer usable nodes exist than
+      the layout needs (one per node-bound sub-agent, one for services, one to
+      offer).  Evaluated on the implementation's result whatever the model's
+      final answer; the allocation itself (pre_filter) is the model's. *)
+Definition needed (c : cfg) : Z :=
+  Z.of_nat (count_agents (c_agents c)) + (if c_services c then 1 else 0) + 1.
+
+Definition scalars_ok (r0 : rminfo) : bool :=
+  negb (r_req_cores r0 =? 0) && negb (r_cpn r0 =? 0) && (0 <? r_nparts r0).
+
+Definition same_node (a b : node) : bool :=
+  (n_index a =? n_index b) && String.eqb (n_name a) (n_name b).
+
+Definition ok_accessible (c : cfg) (e : rmenv) (acc : list access) (first : err + rminfo) : bool :=
+  match pre_filter c e with
+  | inl _ => true
+  | inr r0 =>
+    let av := accessible (r_backup r0) acc (r_nodes r0) in
+    match first with
+    | inr r =>
+        forallb (fun n => existsb (same_node n) av) (all_nodes r)
+        && nodupZ (map n_index (all_nodes r))
+        && ((r_req_nodes r <? 0) || (zlen (all_nodes r) =? Z.min (r_req_nodes r) (zlen av)))
+    | inl _ =>
+        negb (scalars_ok r0 && (0 <=? r_req_nodes r0)
+              && (needed c <=? Z.min (r_req_nodes r0) (zlen av)))
+    end
+  end.
+
 (* ------------------------------------------------------------------ row *)
 Definition c18_row (c : cfg) (e : rmenv) (acc : list access)
   (first : err + rminfo) (second : option (err + rminfo)) (glue : bool) : list bool :=
   let expected2 := match first with
                    | inr r => Some (rm_from_registry (as_dict r))
                    | inl _ => None end in
-  result_eqb (rm_construct c e acc) first && eqb_option result_eqb expected2 second && glue ::
+  (result_eqb (rm_construct c e acc) first && eqb_option result_eqb expected2 second && glue) ::
   match first with
-  | inl _ => [true; true; true; true; true; true; true; true]
+  | inl _ => [true; true; true; true; true; true; true]
   | inr r => [ ok_names e r; ok_indices r; ok_sizes c e r; ok_reserved c r;
-               ok_nonempty r; (r_req_nodes r <? 0) || ok_bound r; ok_same r second; true ]
-  end.
+               ok_nonempty r; (r_req_nodes r <? 0) || ok_bound r; ok_same r second ]
+  end ++ [ok_accessible c e acc first; true].
 
 (* library behaviour taken as an input by the model: the names ru.get_hostlist
    returns for a hostlist text vs the batch system's reading of that text *)
 Definition c18_hostlist_row (expected observed : list string) : list bool :=
-  [true; true; true; true; true; true; true; true; eqb_list String.eqb expected observed].
+  [true; true; true; true; true; true; true; true; true; eqb_list String.eqb expected observed].
